@@ -57,20 +57,25 @@ func (kv *KeyValue) Flush() error {
 	kv.mu.Lock()
 	defer kv.mu.Unlock()
 	var (
-		bmback = kv.back.BeginBatch()
+		// The batch mutation for the backing storage is created lazily,
+		// only if there is something to flush: some implementations
+		// (e.g. sqlkv) hold a resource from BeginBatch until CommitBatch,
+		// which is never called for an empty buffer.
+		bmback sorted.BatchMutation
 		bmbuf  = kv.buf.BeginBatch()
-		commit = false
 		it     = kv.buf.Find("", "")
 	)
 	for it.Next() {
+		if bmback == nil {
+			bmback = kv.back.BeginBatch()
+		}
 		bmback.Set(it.Key(), it.Value())
 		bmbuf.Delete(it.Key())
-		commit = true
 	}
 	if err := it.Close(); err != nil {
 		return err
 	}
-	if commit {
+	if bmback != nil {
 		if err := kv.back.CommitBatch(bmback); err != nil {
 			return err
 		}
